@@ -1,0 +1,222 @@
+/*
+ * Read-only hooks for the verification harness in /verif.
+ * Compiled only with `--cfg grex_verif`; nothing here is used by the library itself.
+ */
+
+use crate::builder::RegExpBuilder;
+use crate::cluster::GraphemeCluster;
+use crate::config::RegExpConfig;
+use crate::dfa::Dfa;
+use crate::expression::Expression;
+use crate::grapheme::Grapheme;
+use crate::quantifier::Quantifier;
+use crate::regexp::RegExp;
+use itertools::Itertools;
+use unic_ucd_category::GeneralCategory;
+use unicode_segmentation::UnicodeSegmentation;
+
+/// Bit positions follow the field order of `RegExpConfig`.
+pub const BIT_DIGIT: u32 = 0;
+pub const BIT_NON_DIGIT: u32 = 1;
+pub const BIT_SPACE: u32 = 2;
+pub const BIT_NON_SPACE: u32 = 3;
+pub const BIT_WORD: u32 = 4;
+pub const BIT_NON_WORD: u32 = 5;
+pub const BIT_REPETITION: u32 = 6;
+pub const BIT_CASE_INSENSITIVE: u32 = 7;
+pub const BIT_CAPTURING: u32 = 8;
+pub const BIT_ESCAPE: u32 = 9;
+pub const BIT_SURROGATE: u32 = 10;
+pub const BIT_VERBOSE: u32 = 11;
+pub const BIT_NO_START: u32 = 12;
+pub const BIT_NO_END: u32 = 13;
+pub const BIT_COLOR: u32 = 14;
+
+fn config_from_bits(bits: u32, min_rep: u32, min_len: u32) -> RegExpConfig {
+    let b = |i: u32| bits & (1 << i) != 0;
+    let mut c = RegExpConfig::new();
+    c.minimum_repetitions = min_rep;
+    c.minimum_substring_length = min_len;
+    c.is_digit_converted = b(BIT_DIGIT);
+    c.is_non_digit_converted = b(BIT_NON_DIGIT);
+    c.is_space_converted = b(BIT_SPACE);
+    c.is_non_space_converted = b(BIT_NON_SPACE);
+    c.is_word_converted = b(BIT_WORD);
+    c.is_non_word_converted = b(BIT_NON_WORD);
+    c.is_repetition_converted = b(BIT_REPETITION);
+    c.is_case_insensitive_matching = b(BIT_CASE_INSENSITIVE);
+    c.is_capturing_group_enabled = b(BIT_CAPTURING);
+    c.is_non_ascii_char_escaped = b(BIT_ESCAPE);
+    c.is_astral_code_point_converted_to_surrogate = b(BIT_SURROGATE);
+    c.is_verbose_mode_enabled = b(BIT_VERBOSE);
+    c.is_start_anchor_disabled = b(BIT_NO_START);
+    c.is_end_anchor_disabled = b(BIT_NO_END);
+    c.is_output_colorized = b(BIT_COLOR);
+    c
+}
+
+fn bits_from_config(c: &RegExpConfig) -> (u32, u32, u32) {
+    let flags = [
+        c.is_digit_converted,
+        c.is_non_digit_converted,
+        c.is_space_converted,
+        c.is_non_space_converted,
+        c.is_word_converted,
+        c.is_non_word_converted,
+        c.is_repetition_converted,
+        c.is_case_insensitive_matching,
+        c.is_capturing_group_enabled,
+        c.is_non_ascii_char_escaped,
+        c.is_astral_code_point_converted_to_surrogate,
+        c.is_verbose_mode_enabled,
+        c.is_start_anchor_disabled,
+        c.is_end_anchor_disabled,
+        c.is_output_colorized,
+    ];
+    let mut bits = 0;
+    for (i, f) in flags.iter().enumerate() {
+        if *f {
+            bits |= 1 << i;
+        }
+    }
+    (bits, c.minimum_repetitions, c.minimum_substring_length)
+}
+
+/// A builder whose configuration is set field by field (no setter involved).
+pub fn builder_with(test_cases: &[String], bits: u32, min_rep: u32, min_len: u32) -> RegExpBuilder {
+    RegExpBuilder {
+        test_cases: test_cases.to_vec(),
+        config: config_from_bits(bits, min_rep, min_len),
+    }
+}
+
+pub fn config_of(builder: &RegExpBuilder) -> (u32, u32, u32) {
+    bits_from_config(&builder.config)
+}
+
+pub fn test_cases_of(builder: &RegExpBuilder) -> Vec<String> {
+    builder.test_cases.clone()
+}
+
+/// Lengths (in code points) of the extended grapheme clusters of `s`, as the crate
+/// the library is linked against computes them.
+pub fn segment(s: &str) -> Vec<usize> {
+    UnicodeSegmentation::graphemes(s, true)
+        .map(|g| g.chars().count())
+        .collect_vec()
+}
+
+pub fn is_mark_or_other(c: char) -> bool {
+    let category = GeneralCategory::of(c);
+    category.is_mark() || category.is_other()
+}
+
+pub fn hex(s: &str) -> String {
+    if s.is_empty() {
+        "-".to_string()
+    } else {
+        s.chars().map(|c| format!("{:x}", c as u32)).join(".")
+    }
+}
+
+pub fn dump_grapheme(g: &Grapheme) -> String {
+    let mut out = format!(
+        "{}~{}~{}",
+        g.chars().iter().map(|c| hex(c)).join(","),
+        g.minimum(),
+        g.maximum()
+    );
+    if !g.repetitions.is_empty() {
+        out.push('{');
+        out.push_str(&g.repetitions.iter().map(dump_grapheme).join(";"));
+        out.push('}');
+    }
+    out
+}
+
+fn dump_cluster(c: &GraphemeCluster) -> String {
+    if c.graphemes().is_empty() {
+        "-".to_string()
+    } else {
+        c.graphemes().iter().map(dump_grapheme).join(" ")
+    }
+}
+
+fn dump_dfa(d: &Dfa) -> String {
+    let (n, init, finals, edges, alphabet) = d.verif_snapshot();
+    format!(
+        "N{} I{} F{} E{} A{}",
+        n,
+        init,
+        finals.iter().join(","),
+        edges
+            .iter()
+            .map(|(s, t, g)| format!("{}>{}:{}", s, t, dump_grapheme(g)))
+            .join(";"),
+        alphabet.iter().map(dump_grapheme).join(";")
+    )
+}
+
+pub fn dump_expr(e: &Expression) -> String {
+    match e {
+        Expression::Alternation(options, _, _, _) => {
+            format!("A({})", options.iter().map(dump_expr).join(","))
+        }
+        Expression::CharacterClass(set, _) => {
+            format!("K({})", set.iter().map(|c| format!("{:x}", *c as u32)).join("."))
+        }
+        Expression::Concatenation(a, b, _, _, _) => {
+            format!("C({},{})", dump_expr(a), dump_expr(b))
+        }
+        Expression::Literal(cluster, _, _) => format!("L({})", dump_cluster(cluster)),
+        Expression::Repetition(inner, q, _, _, _) => format!(
+            "Q{}({})",
+            match q {
+                Quantifier::KleeneStar => '*',
+                Quantifier::QuestionMark => '?',
+            },
+            dump_expr(inner)
+        ),
+    }
+}
+
+pub struct StageDump {
+    /// test cases after lower-casing, sorting and deduplication
+    pub sorted: Vec<String>,
+    /// one entry per test case, after class and repetition conversion
+    pub clusters: Vec<String>,
+    pub trie: String,
+    pub minimized: String,
+    /// expression obtained from the minimised automaton
+    pub first_ast: String,
+    /// expression `RegExp::from` finally keeps (after its self-check fall-backs)
+    pub final_ast: String,
+    pub output: String,
+}
+
+pub fn stage_dump(test_cases: &[String], bits: u32, min_rep: u32, min_len: u32) -> StageDump {
+    let config = config_from_bits(bits, min_rep, min_len);
+    let mut staged = test_cases.to_vec();
+    let (sorted, clusters, trie, minimized, first_ast);
+    {
+        let stages = RegExp::verif_stages(&mut staged, &config);
+        clusters = stages.clusters.iter().map(dump_cluster).collect_vec();
+        trie = dump_dfa(&stages.trie);
+        minimized = dump_dfa(&stages.minimized);
+        first_ast = dump_expr(&stages.first_ast);
+    }
+    sorted = staged;
+    let mut real = test_cases.to_vec();
+    let regexp = RegExp::from(&mut real, &config);
+    let final_ast = dump_expr(regexp.verif_ast());
+    let output = regexp.to_string();
+    StageDump {
+        sorted,
+        clusters,
+        trie,
+        minimized,
+        first_ast,
+        final_ast,
+        output,
+    }
+}
